@@ -122,48 +122,57 @@ Definition move_cur_to_ms (s : st) (id tok amt : Z) : res st :=
 
 Definition last_of (l : list Z) : Z := last l 0.
 
-(* revertible_swap_for_one_side; is_into = SwapDirection::Into *)
+(* revertible_swap_for_one_side; is_into = SwapDirection::Into.
+   stage_first: (From) move the input from the current market into the first market; if the path starts in
+   the current market, swap there and move the result on to the next market.
+   stage_rest: swap along the remaining path (minus a trailing current market), then the trailing current
+   market if any, then (Into) move the output into the current market. *)
+Definition stage_first (is_into : bool) (s : st) (path : list Z) (tok amt : Z) : res (st * Z * Z * list Z) :=
+  match path with
+  | [] => Ok (s, tok, amt, [])
+  | first :: rest =>
+      let cur := mk_id (s_cur s) in
+      s1 <-- (if negb is_into && negb (first =? cur) then move_cur_to_ms s first tok amt else Ok s) ;;
+      if first =? cur then
+        y <-- swap_current s1 tok amt ;;
+        let '(s2, tok2, amt2) := y in
+        match rest with
+        | [] => Ok (s2, tok2, amt2, rest)
+        | nxt :: _ => s3 <-- move_cur_to_ms s2 nxt tok2 amt2 ;; Ok (s3, tok2, amt2, rest)
+        end
+      else Ok (s1, tok, amt, path)
+  end.
+
+Definition stage_rest (is_into : bool) (s4 : st) (path4 : list Z) (tok4 amt4 : Z) : res (st * Z * Z) :=
+  match path4 with
+  | [] => Ok (s4, tok4, amt4)
+  | _ =>
+      let cur := mk_id (s_cur s4) in
+      let lst := last_of path4 in
+      let swc := lst =? cur in
+      let path5 := if swc then removelast path4 else path4 in
+      y <-- along s4 path5 tok4 amt4 true ;;
+      let '(s5, tok5, amt5) := y in
+      z <-- (if swc then
+               s6 <-- (match path5 with
+                       | [] => Ok s5
+                       | _ => move_ms_to_cur s5 (last_of path5) tok5 amt5
+                       end) ;;
+               swap_current s6 tok5 amt5
+             else Ok (s5, tok5, amt5)) ;;
+      let '(s7, tok7, amt7) := z in
+      if is_into && negb (lst =? cur) then
+        s8 <-- move_ms_to_cur s7 lst tok7 amt7 ;; Ok (s8, tok7, amt7)
+      else Ok (s7, tok7, amt7)
+  end.
+
 Definition one_side (is_into : bool) (s : st) (path : list Z) (expected tok amt : Z) : res (st * Z) :=
   match find (s_ms s) (mk_id (s_cur s)) with
   | Some _ => Err 1
   | None =>
-      r <-- (match path with
-             | [] => Ok (s, tok, amt)
-             | first :: _ =>
-                 let cur := mk_id (s_cur s) in
-                 (* From: move the input from the current market into the first market *)
-                 s1 <-- (if negb is_into && negb (first =? cur) then move_cur_to_ms s first tok amt else Ok s) ;;
-                 (* first step in the current market *)
-                 x <-- (if first =? cur then
-                          y <-- swap_current s1 tok amt ;;
-                          let '(s2, tok2, amt2) := y in
-                          match tl path with
-                          | [] => Ok (s2, tok2, amt2, tl path)
-                          | nxt :: _ => s3 <-- move_cur_to_ms s2 nxt tok2 amt2 ;; Ok (s3, tok2, amt2, tl path)
-                          end
-                        else Ok (s1, tok, amt, path)) ;;
-                 let '(s4, tok4, amt4, path4) := x in
-                 match path4 with
-                 | [] => Ok (s4, tok4, amt4)
-                 | _ =>
-                     let lst := last_of path4 in
-                     let swc := lst =? cur in
-                     let path5 := if swc then removelast path4 else path4 in
-                     y <-- along s4 path5 tok4 amt4 true ;;
-                     let '(s5, tok5, amt5) := y in
-                     z <-- (if swc then
-                              s6 <-- (match path5 with
-                                      | [] => Ok s5
-                                      | _ => move_ms_to_cur s5 (last_of path5) tok5 amt5
-                                      end) ;;
-                              swap_current s6 tok5 amt5
-                            else Ok (s5, tok5, amt5)) ;;
-                     let '(s7, tok7, amt7) := z in
-                     if is_into && negb (lst =? cur) then
-                       s8 <-- move_ms_to_cur s7 lst tok7 amt7 ;; Ok (s8, tok7, amt7)
-                     else Ok (s7, tok7, amt7)
-                 end
-             end) ;;
+      x <-- stage_first is_into s path tok amt ;;
+      let '(s4, tok4, amt4, path4) := x in
+      r <-- stage_rest is_into s4 path4 tok4 amt4 ;;
       let '(s', tok', amt') := r in
       if tok' =? expected then Ok (s', amt') else Err 1
   end.
